@@ -1,6 +1,6 @@
 (* Dispatcher: one protocol line in, one observation line out.  This is the function the
    extracted driver (ocaml/driver.ml) and the in-Coq cross-check (Eval vm_compute) both run. *)
-From OA Require Import Bytes Proto ErrorCodes DevicePoll DeviceKinds FormUrlencoded Base64 Sha256 Requests Pkce AuthUrl ReqSpec Secrets.
+From OA Require Import Bytes Proto ErrorCodes DevicePoll DeviceKinds FormUrlencoded Base64 Sha256 Requests Pkce AuthUrl ReqSpec Secrets ClientCfg.
 From Coq Require Import ZArith.
 
 Definition run_c14 (ws : list bytes) : bytes :=
@@ -479,6 +479,113 @@ Definition run_seceq (ws : list bytes) : bytes :=
   | _ => bad_case
   end.
 
+(* ---------------------------------------------------------------- C11: client configuration *)
+
+(* url token: x<orig>/x<text>/<ok>/x<scheme>/x<prefix>/<query>/<fragment> *)
+Definition parse_urlv (t : bytes) : option urlv :=
+  match split_on "/"%char t with
+  | [o; tx; ok; sc; pr; q; f] =>
+      match untok_bytes o, untok_bytes tx, untok_bool ok, untok_bytes sc, untok_bytes pr,
+            untok_opt q, untok_opt f with
+      | Some o, Some tx, Some ok, Some sc, Some pr, Some q, Some f =>
+          Some {| uv_orig := o;
+                  uv_ep := {| ep_text := tx; ep_uri_ok := ok; ep_scheme := sc |};
+                  uv_abs := {| u_prefix := pr; u_query := q; u_fragment := f |} |}
+      | _, _, _, _, _, _, _ => None
+      end
+  | _ => None
+  end.
+
+Definition parse_ep (c : ascii) : option ep_name :=
+  if Ascii.eqb c "A" then Some EAuth else if Ascii.eqb c "T" then Some EToken
+  else if Ascii.eqb c "D" then Some EDevAuth else if Ascii.eqb c "I" then Some EIntrospect
+  else if Ascii.eqb c "R" then Some ERevoke else None.
+
+Definition parse_cfg_op (t : bytes) : option cfg_op :=
+  match t with
+  | ["B"%char] => Some (SetAuthType BasicAuth)
+  | ["Q"%char] => Some (SetAuthType RequestBody)
+  | "S"%char :: "="%char :: r => option_map SetSecret (untok_bytes r)
+  | "U"%char :: "="%char :: r => option_map SetRedirectUri (untok_bytes r)
+  | k :: "="%char :: r =>
+      match parse_ep k, parse_urlv r with
+      | Some e, Some u => Some (SetUrl e u)
+      | _, _ => None
+      end
+  | k :: "?"%char :: r =>
+      match parse_ep k with
+      | None => None
+      | Some e =>
+          match r with
+          | ["-"%char] => Some (SetUrlOpt e None)
+          | _ => option_map (fun u => SetUrlOpt e (Some u)) (parse_urlv r)
+          end
+      end
+  | _ => None
+  end.
+
+Definition render_req_bar (r : http_req) : bytes :=
+  join ["|"%char] [tok_bytes (rq_method r); tok_bytes (rq_target r);
+                   match sort_headers (rq_headers r) with
+                   | [] => []
+                   | h => tok_pairs h
+                   end; tok_bytes (rq_body r)].
+
+Definition render_gated_req (g : gated (option http_req)) : bytes :=
+  match g with
+  | GAbsent => s2b "absent-op"
+  | GPanic => s2b "PANIC"
+  | GMissing n => s2b "missing:" ++ tok_bytes n
+  | GInsecure n => s2b "insecure:" ++ tok_bytes n
+  | GValue None => s2b "other"
+  | GValue (Some r) => render_req_bar r
+  end.
+
+Definition render_getter (e : ep_name) (s : cstate) (ops : list bytes) : bytes :=
+  match getter e s with
+  | GAbsent => s2b "absent"
+  | GValue (Some u) =>
+      match tstate e s with
+      | MaybeSet => join [","%char] (s2b "maybe" :: tok_bytes (uv_orig u) :: ops)
+      | _ => join [","%char] (s2b "set" :: tok_bytes (uv_orig u) :: ops)
+      end
+  | GValue None => join [","%char] (s2b "maybe" :: ["-"%char] :: ops)
+  | _ => s2b "PANIC"
+  end.
+
+Definition render_authobs (s : cstate) : bytes :=
+  match run_authorize s (s2b "st") with
+  | GValue (u, st) => tok_bytes (url_text u) ++ "/"%char :: tok_bytes st
+  | GMissing n => s2b "missing:" ++ tok_bytes n
+  | GAbsent => s2b "absent-op"
+  | _ => s2b "PANIC"
+  end.
+
+Definition run_cfg (ws : list bytes) : bytes :=
+  match ws with
+  | [id; ops] =>
+      match untok_bytes id,
+            (match ops with ["."%char] => Some [] | _ => sequence_opt (map parse_cfg_op (split_on ";"%char ops)) end) with
+      | Some id, Some ops =>
+          let s := fold_left apply_op ops (init id) in
+          let op o := render_gated_req (run_operation s o) in
+          unwords [
+            s2b "id=" ++ tok_bytes (c_id s);
+            s2b "auth=" ++ (match c_auth s with BasicAuth => s2b "B" | RequestBody => s2b "Q" end);
+            s2b "redir=" ++ tok_opt (c_redirect s);
+            s2b "A:" ++ render_getter EAuth s [render_authobs s];
+            s2b "T:" ++ render_getter EToken s
+                  [op (OpCode (s2b "c")); op (OpRefresh (s2b "r")); op (OpPassword (s2b "u") (s2b "p"));
+                   op OpClientCreds; op (OpDeviceToken (s2b "d"))];
+            s2b "D:" ++ render_getter EDevAuth s [op OpDeviceAuth];
+            s2b "I:" ++ render_getter EIntrospect s [op (OpIntrospect (s2b "t"))];
+            s2b "R:" ++ render_getter ERevoke s [op (OpRevoke (s2b "t") (Some (s2b "access_token")))]
+          ]
+      | _, _ => bad_case
+      end
+  | _ => bad_case
+  end.
+
 Definition run_line (line : bytes) : bytes :=
   match words line with
   | p :: ws =>
@@ -501,6 +608,7 @@ Definition run_line (line : bytes) : bytes :=
       else if is_kw "CSRFM" p then monitor_csrf ws
       else if is_kw "SECEQ" p then run_seceq ws
       else if is_kw "ECHOOK" p then s2b "ok"
+      else if is_kw "CFG" p then run_cfg ws
       else if is_kw "REQM2" p then monitor_req false ws
       else if is_kw "AUTHURLM" p then monitor_authurl ws
       else if is_kw "POLLM" p then monitor_poll ws
